@@ -10,6 +10,7 @@ import (
 	"iter"
 	"maps"
 	"os"
+	"path/filepath"
 	"slices"
 	"strings"
 	"sync"
@@ -105,12 +106,40 @@ func (s *ManagedServer) saveToFile() error {
 	}
 	b = append(b, '\n') // b has plenty of unused capacity.
 
-	if err = os.WriteFile(s.path, b, 0644); err != nil {
+	if err = writeFileAtomic(s.path, b, 0644); err != nil {
 		return err
 	}
 
 	s.cachedContent = unsafe.String(unsafe.SliceData(b), len(b))
 	return nil
+}
+
+// writeFileAtomic writes data to a temporary file next to name and renames it over name,
+// so that a crash or a write error at any point leaves either the old or the new content,
+// never a truncated or partially written file.
+func writeFileAtomic(name string, data []byte, perm os.FileMode) error {
+	f, err := os.CreateTemp(filepath.Dir(name), filepath.Base(name)+".tmp*")
+	if err != nil {
+		return err
+	}
+	tmpName := f.Name()
+	_, err = f.Write(data)
+	if err == nil {
+		err = f.Chmod(perm)
+	}
+	if err == nil {
+		err = f.Sync()
+	}
+	if closeErr := f.Close(); err == nil {
+		err = closeErr
+	}
+	if err == nil {
+		err = os.Rename(tmpName, name)
+	}
+	if err != nil {
+		_ = os.Remove(tmpName)
+	}
+	return err
 }
 
 func (s *ManagedServer) dequeueSave(ctx context.Context) {
